@@ -20,6 +20,7 @@ RULE = ("documents written by Python (json.dumps with random indentation/escapin
         "distinct (format, file bytes); non-trivial = a container document or a non-ASCII / binary file.")
 RULE += (" " + 'Also: byte-level corruption of every second document into invalid UTF-8 (stray, truncated, overlong and surrogate sequences, never at the first two bytes); files whose sizes sit around 256, 1024, 2048, 4096, 8192 and 65,536 bytes; documents with a long string and a long list next to the data.')
 RULE += (" " + 'Every fourth agreeing document and every third str / b64 file is also included from a built file (type checker on) and used as what it is (v + "!", v + 1, v && true, v + [1], v{zz = 1}); the same file is included under 2..5 types in one program, each compared with the include alone, and a malformed include after good ones must still fail.')
+RULE += (" " + 'Round 8: integers outside i64 (excluded from the exact comparison, decoders legitimately differ) are judged by a weaker oracle in json and yaml documents of four shapes: the include fails or the place holds a number equal to the document value to double precision, never another number.')
 
 I64 = (-(2 ** 63), 2 ** 63 - 1)
 
@@ -305,6 +306,42 @@ def judge_doc(env, fmt, text, res, label):
         judge_use(env, fmt, data, dec, res, witness)
 
 
+def judge_bigint(env, fmt, text, n, shape, res):
+    rr = env.include(fmt, text.encode("utf-8"))
+    res.case((fmt, text), nontrivial=True)
+    res.count("label:integer-outside-i64:" + fmt)
+    if "panic" in rr or "crash" in rr or "hang" in rr or "inconclusive" in rr:
+        res.count("crash-left-to-C04")
+        return
+    if not rr.get("ok"):
+        res.count("integer-outside-i64:refused:" + fmt)
+        return
+    v = dict((k, x) for k, x in rr["val"]["T"]).get("v")
+    path = [["T", "n"], ["L", 0], ["T", "a", "T", "b", "L", 1], ["T", "n"]][shape]
+    try:
+        for i in range(0, len(path), 2):
+            v = dict((k, x) for k, x in v["T"])[path[i + 1]] if path[i] == "T" else v[path[i + 1]]
+    except Exception:
+        v = "<missing>"
+    if isinstance(v, dict) and "i" in v:
+        x = int(v["i"])
+        okv = (x == n)
+        how = "int"
+    elif isinstance(v, dict) and "f" in v:
+        import struct
+        from fractions import Fraction
+        xf = struct.unpack(">d", bytes.fromhex(v["f"]))[0]
+        okv = xf == xf and xf not in (float("inf"), float("-inf")) and abs(Fraction(xf) - n) <= abs(Fraction(n)) / 2 ** 52
+        how = "nearest-double"
+    else:
+        okv, how = False, "not-a-number"
+    if not okv:
+        res.violation(["integer-outside-i64-read-as-another-number", fmt, how], {"format": fmt, "file_b64": core.b64e(text.encode("utf-8")), "bigint": str(n), "shape": shape},
+                      {"text": text, "ucg": v})
+    else:
+        res.count("integer-outside-i64:%s:%s" % (how, fmt))
+
+
 def cls(msg):
     m = re.sub(r"[0-9]+", "N", msg)
     m = re.sub(r"/\S+", "_", m)
@@ -344,6 +381,25 @@ def task(args):
                     judge_many(env, r, docgen.corrupt(r, text).encode("utf-8", "surrogatepass"), res)
                 if c < 1 and idx < 3:
                     res.sample({"format": fmt, "text": text[:300]})
+        elif kind == "bigint":
+            # integers outside i64: the decoders legitimately differ on them (exact, nearest double, refusal), so the exact
+            # comparison leaves them out.  What no correct decoder does is hand over ANOTHER number: the include either fails
+            # or puts a number there that equals the document's to the precision of a double.
+            _, seed, idx, count = args
+            r = core.rng_for(seed, "c15b", idx)
+            base = [2 ** 63, 2 ** 63 + 1, 2 ** 64 - 1, 2 ** 64, 2 ** 64 + 1, 10 ** 19, 10 ** 20, 10 ** 30, 2 ** 100, 2 ** 127, 2 ** 128,
+                    -(2 ** 63) - 1, -(2 ** 64), -(10 ** 19), -(10 ** 25), 2 ** 63 + 12345, 2 ** 64 - 2, 3 * 2 ** 62, 12345678901234567890]
+            for c in range(count):
+                n = r.choice(base) if c < 4 * len(base) else r.choice(base) + r.randint(-1000, 1000) * r.choice([1, 2 ** 20])
+                if I64[0] <= n <= I64[1]:
+                    continue
+                fmt = ("json", "yaml")[c % 2]
+                shape = c // 2 % 4
+                if fmt == "json":
+                    text = ['{"n": %d}', '[%d]', '{"a": {"b": [1, %d]}}', '{"small": 1, "n": %d, "s": "x"}'][shape] % n
+                else:
+                    text = ["n: %d\n", "- %d\n", "a:\n  b:\n  - 1\n  - %d\n", "small: 1\nn: %d\ns: x\n"][shape] % n
+                judge_bigint(env, fmt, text, n, shape, res)
         elif kind == "raw":
             _, seed, idx, count = args
             r = core.rng_for(seed, "c15r", idx)
@@ -419,6 +475,7 @@ def run(tier, seed, t0):
     tasks = [("docs", seed, i, n // sh) for i in range(sh)]
     nr = 4000 if q else 40000
     tasks += [("raw", seed, i, nr // 16) for i in range(16)]
+    tasks += [("bigint", seed, i, 160 if q else 1500) for i in range(4)]
     res = core.run_parallel(task, tasks)
     extra = None
     if not q:
@@ -446,6 +503,9 @@ def check_witness(w):
                 def randint(self, a, b): return len(w["formats"])
                 def random(self): return 1.0
             judge_many(env, _R(), data, res)
+            return res
+        if w.get("bigint"):
+            judge_bigint(env, fmt, data.decode("utf-8"), int(w["bigint"]), w["shape"], res)
             return res
         if w.get("use"):
             # the value used according to its type in a built file
